@@ -27,6 +27,18 @@ Theorem C07_zero_at_quiescence : forall n t s,
 Proof. exact zero_at_quiescence. Qed.
 Print Assumptions C07_zero_at_quiescence.
 
+(* The operation traces the harness derives for a request from its script and the balancer's observed choices
+   (ConnCount.simulate; used by agree_C07) are valid traces of the model for ANY script and choices, and they end in the
+   state the harness assumes: the request has passed FinishReq and holds nothing, or it is in flight (sent, holding an
+   increment) on the last backend chosen.  Together with C07_count_equals_inflight: a backend's count is the number of
+   requests the harness currently holds inside that backend. *)
+Theorem C07_harness_traces_valid : forall fuel dead rm retry fwd steps choice m s slot,
+  simulate fuel dead rm retry fwd steps choice = Some m ->
+  ph (reqs s slot) = PLoop ->
+  exists s', run_ops s (map (fun x => (slot, x)) (m_ops m)) = Some s' /\ sim_end m choice (reqs s' slot).
+Proof. exact simulate_valid. Qed.
+Print Assumptions C07_harness_traces_valid.
+
 (* Record of the defect repaired in /repo (commit cd4c052): before the fix a HandleForward filter returning Finish left
    request.Trans.Backend set although IncConnNum had not run; FinishReq then decremented: count -1. *)
 Theorem C07_forward_finish_refuted_prefix :
@@ -43,3 +55,7 @@ Example C07_two_requests :
                         (0%nat, RoundTrip 1); (0%nat, BalanceOk 0%nat); (0%nat, ForwardGoOn)] = Some s
             /\ counts s 0%nat = 2 /\ counts s 2%nat = 0 /\ inflight (reqs s) 2 0%nat = 2.
 Proof. exact two_requests. Qed.
+Example C07_simulate_example :
+  simulate 40 2 2 0 [1; 1] [1; 3] [0; 2; 1]%nat
+  = Some (mkSim [BalanceOk 0; ForwardGoOn; RoundTrip 1; BalanceOk 2; ForwardGoOn; RoundTrip 1; BalanceOk 1; ForwardGoOn] 0 3 true).
+Proof. exact simulate_example. Qed.
